@@ -97,12 +97,20 @@ func vrfWorldArbitrary(needInit int) *vrfWorld {
 	s := vetcd.New()
 	c := s.Client()
 	// a leadership as a successful Campaign leaves it; the local lease expires at an arbitrary instant
-	ls := election.VerifLeadership(c, vrfLeaderKey, "member-1", 7, time.Unix(0, v.Int64("leaseExpire")))
-	switch v.Choice("leaderMode", 3) {
-	case 0:
+	var ls *election.Leadership
+	if needInit == 3 {
+		// concurrent entries: a valid leader throughout (lease expires after every clock reading)
+		needInit = 1
+		ls = election.VerifLeadership(c, vrfLeaderKey, "member-1", 7, time.Unix(0, int64(1)<<62))
 		s.SetRaw(vrfLeaderKey, []byte("member-1"))
-	case 1:
-		s.SetRaw(vrfLeaderKey, []byte("member-2"))
+	} else {
+		ls = election.VerifLeadership(c, vrfLeaderKey, "member-1", 7, time.Unix(0, v.Int64("leaseExpire")))
+		switch v.Choice("leaderMode", 3) {
+		case 0:
+			s.SetRaw(vrfLeaderKey, []byte("member-1"))
+		case 1:
+			s.SetRaw(vrfLeaderKey, []byte("member-2"))
+		}
 	}
 	si := v.Int64("saveInterval")
 	v.Assume(v.And(si > int64(UpdateTimestampGuard), si <= int64(time.Hour)))
@@ -210,6 +218,14 @@ func VerifTSOStep() {
 	}
 	s.FaultFn = nil
 	S1 := vrfStoredWindow(s)
+	v.Observe("err", err)
+	v.Observe("inited", w.inited())
+	if w.inited() {
+		v.Observe("physical", w.physNs())
+		v.Observe("logical", to.tsoMux.logical)
+	}
+	v.Observe("lastSaved", w.savedNs())
+	v.Observe("stored", S1)
 	if prop == 2 {
 		// every write is at least the last acknowledged window (a reply-lost write may sit above it)
 		v.Assert("stored-window-never-below-acknowledged", S1 >= W0)
@@ -243,6 +259,12 @@ func VerifTSOSync() {
 	w.faults(v.Param("faults", 1))
 	err := fresh.SyncTimestamp(w.ls)
 	s.FaultFn = nil
+	v.Observe("err", err)
+	v.Observe("inited", w.inited())
+	if w.inited() {
+		v.Observe("physical", w.physNs())
+	}
+	v.Observe("stored", vrfStoredWindow(s))
 	if err != nil {
 		v.Assert("failed-sync-leaves-oracle-uninitialised", !w.inited())
 		if prop == 2 {
@@ -266,3 +288,102 @@ func VerifTSOSync() {
 	}
 	v.Reach("end")
 }
+
+func vrfDisjoint(a pdpb.Timestamp, ca uint32, b pdpb.Timestamp, cb uint32) bool {
+	// ranges (l-c, l] at equal physical parts must not intersect
+	return v.Or(a.Physical != b.Physical, a.Logical <= b.Logical-int64(cb), b.Logical <= a.Logical-int64(ca))
+}
+
+// VerifTSOPar: two operations run concurrently from an arbitrary initialised
+// invariant state: one of them is interrupted at any of its scheduling points
+// (Lock/RLock, atomic.Value Load/Store, etcd operation made by PD code) by the
+// other, which runs to completion (both role assignments); param par=1 uses the
+// general thread scheduler with a preemption bound instead.
+func VerifTSOPar() {
+	prop := v.Param("prop", 1)
+	pair := v.Param("onlyPair", -1)
+	if pair < 0 {
+		pair = v.Choice("pair", v.Param("pairs", 5))
+	}
+	w := vrfWorldArbitrary(3)
+	s, to := w.store, w.to
+	W0 := w.savedNs()
+	gp0, gl0 := w.gp, w.gl
+	var ts1, ts2 pdpb.Timestamp
+	var e1, e2 error
+	c1, c2 := v.Uint32("count1"), v.Uint32("count2")
+	grant1 := func() { ts1, e1 = to.getTS(w.ls, c1, 0) }
+	grant2 := func() { ts2, e2 = to.getTS(w.ls, c2, 0) }
+	update := func() { e2 = to.UpdateTimestamp(w.ls) }
+	resetTo := v.Uint64("resetTo")
+	v.Assume(resetTo>>18 <= uint64(1)<<43)
+	reset := func() { e2 = to.resetUserTimestamp(w.ls, resetTo, false) }
+	g2 := false
+	// each pair in both roles: which operation is interrupted and which interferes atomically
+	inter := v.Interleave
+	if v.Param("par", 0) == 1 {
+		inter = func(a, b func()) { v.Par(a, b) }
+	}
+	swap := v.Choice("swapRoles", 2) == 1
+	run := func(a, b func()) {
+		if swap {
+			inter(b, a)
+		} else {
+			inter(a, b)
+		}
+	}
+	switch pair {
+	case 0:
+		run(grant1, grant2)
+		g2 = true
+	case 1:
+		run(grant1, update)
+	case 2:
+		run(grant1, reset)
+	case 3:
+		e1 = errNotRun
+		run(update, func() { e1 = to.resetUserTimestamp(w.ls, resetTo, false) })
+	case 4:
+		run(grant1, func() { to.ResetTimestamp() })
+	}
+	v.Observe("e1", e1)
+	v.Observe("e2", e2)
+	v.Observe("physical", w.physNs())
+	v.Observe("logical", to.tsoMux.logical)
+	v.Observe("lastSaved", w.savedNs())
+	v.Observe("stored", vrfStoredWindow(s))
+	ok1 := e1 == nil && pair != 3
+	ok2 := e2 == nil && g2
+	if prop == 1 {
+		if ok1 {
+			v.Assert("par-grant1-fits", v.And(ts1.Logical > 0, ts1.Logical < maxLogical))
+			v.Assert("par-grant1-above-earlier", lexGT(ts1.Physical, ts1.Logical-int64(c1)+1, gp0, gl0))
+			v.Reach("par-granted")
+		}
+		if ok2 {
+			v.Assert("par-grant2-above-earlier", lexGT(ts2.Physical, ts2.Logical-int64(c2)+1, gp0, gl0))
+		}
+		if ok1 && ok2 {
+			v.Assert("par-grants-disjoint", vrfDisjoint(ts1, c1, ts2, c2))
+			v.Reach("par-both-granted")
+		}
+	}
+	// ghost: the largest granted timestamp
+	if ok1 {
+		w.gp, w.gl = ts1.Physical, ts1.Logical
+	}
+	if ok2 && v.ConcreteBool(lexGT(ts2.Physical, ts2.Logical, w.gp, w.gl)) {
+		w.gp, w.gl = ts2.Physical, ts2.Logical
+	}
+	if prop == 2 {
+		v.Assert("par-stored-window-never-below-acknowledged", vrfStoredWindow(s) >= W0)
+	}
+	vrfAssertInv(w, "par-inv")
+	v.Reach("end")
+}
+
+var errNotRun = errNotRunT{}
+
+type errNotRunT struct{}
+
+func (errNotRunT) Error() string { return "not run" }
